@@ -21,9 +21,11 @@ from common import wire, show_str
 
 logging.disable(logging.WARNING)
 
+PROOF_MODULES = ['C04', 'C04Cache']
 THEOREMS = ['Pylx.C04_step', 'Pylx.C04_first_rule', 'Pylx.C04_concat', 'Pylx.C04_concat_str', 'Pylx.C04_exceptions',
             'Pylx.C04_terminates', 'Pylx.C04_ascii_untouched', 'Pylx.C04_partial', 'Pylx.C04_partial_no_keep',
-            'Pylx.C04_partial_exceptions', 'Pylx.C04_concrete_noRaise', 'Pylx.C04_asis_partial_raises', 'Pylx.C04_asis_del_not_passed']
+            'Pylx.C04_partial_exceptions', 'Pylx.C04_concrete_noRaise', 'Pylx.C04_asis_partial_raises', 'Pylx.C04_asis_del_not_passed',
+            'Pylx.EncCache.C04_cached', 'Pylx.EncCache.C04_cached_last', 'Pylx.EncCache.C04_cached_key_needs_policy']
 RULE = ('ENC: encoder configurations (rule lists mixing dict / regex-combinator (incl. patterns anchored with ^ or a look-behind, which depend on what precedes the position) / callable-family rules - including a rule that calls unicode_to_latex re-entrantly on the encoder object it is handed - with overlapping matches and '
         'multi-character consumption, protection scheme global and per rule, unknown-character policy, non_ascii_only, chunk-list and '
         'str result classes, PartialLatexToLatexEncoder with several keep sets) x strings (every character of both built-in tables, '
@@ -458,8 +460,27 @@ def run_impl(c):
     outcome = 'ok' if exc is None else ('raise-' + exc[0])
     return {'out': out, 'fail': fail, 'sig': outcome + ':' + ','.join(sorted(branches))}
 
+def _cached_calls(c):
+    return [tuple(h) for h in (c.get('hist') or [])] + [(c['prot'], c['pol'], c['nao'], c['warn'], c['s'])]
+
 def run_cached(c):
-    """C04_cached: the module-level helper equals a fresh encoder with the same four options"""
+    """C04_cached: the module-level helper equals a fresh encoder with the same four options, after any history of calls"""
+    from pylatexenc import latexencode as le
+    outs = []
+    for (pr, po, na, wa, hs) in _cached_calls(c)[:-1]:
+        try:
+            outs.append('ok ' + show_str(le.unicode_to_latex(hs, non_ascii_only=na, replacement_latex_protection=pr, unknown_char_policy=po, unknown_char_warning=wa)))
+        except ValueError as e:
+            m = re.search(r'U\+([0-9A-F]{4,6})\b', str(e))
+            outs.append('raise ValueError %x' % (int(m.group(1), 16) if m else 0))
+        except Exception as e:
+            return {'out': 'raise ' + type(e).__name__, 'fail': {'kind': 'unexpected-exception-' + type(e).__name__, 'detail': 'module-level unicode_to_latex, history call'}, 'sig': 'cached:exc'}
+    r = run_cached_last(c)
+    if r['fail'] is None:
+        r['out'] = ' ; '.join(outs + [r['out']])
+    return r
+
+def run_cached_last(c):
     from pylatexenc import latexencode as le
     s = c['s']
     kw = dict(non_ascii_only=c['nao'], replacement_latex_protection=c['prot'], unknown_char_policy=c['pol'],
@@ -477,7 +498,17 @@ def run_cached(c):
         fail = {'kind': 'cached-helper-differs', 'detail': '%r vs fresh %r (second call %r)' % (a, b, a2)}
     elif a[0] == 'raise' and not (a[1] == 'ValueError' and c['pol'] == 'fail'):
         fail = {'kind': 'unexpected-exception-' + a[1], 'detail': 'module-level unicode_to_latex'}
-    return {'out': None, 'fail': fail, 'sig': 'cached:' + a[0]}
+    if a[0] == 'ok':
+        out = 'ok ' + show_str(a[1])
+    else:
+        try:
+            le.UnicodeToLatexEncoder(**kw).unicode_to_latex(s); ch = 0
+        except ValueError as e:
+            m = re.search(r'U\+([0-9A-F]{4,6})\b', str(e)); ch = int(m.group(1), 16) if m else 0
+        except Exception:
+            ch = 0
+        out = 'raise ValueError %x' % ch
+    return {'out': out, 'fail': fail, 'sig': 'cached:%s:%d' % (a[0], len(c.get('hist') or []))}
 
 # ------------------------------------------------------------------ driver line
 
@@ -562,6 +593,9 @@ def rule_field(r, sn):
     raise ValueError(r['t'])
 
 def to_line(c):
+    if c['k'] == 'cached':
+        return 'CACHE\t' + ';'.join(' '.join([_prot_field(pr), _prot_field(po), 'T' if na else 'F', 'T' if wa else 'F', _w(unicodedata.normalize('NFC', hs))])
+                                    for (pr, po, na, wa, hs) in _cached_calls(c))
     if c['k'] != 'enc':
         return None
     sn = unicodedata.normalize('NFC', c['s'])
@@ -848,6 +882,18 @@ def cases(tier, rng):
             for nao in (False, True):
                 yield {'k': 'cached', 's': rng.choice(['\u00e9 & \u03b1\u4e7e', 'a\x01b', '\u00c0 votre sant\u00e9', rand_string(rng, 8)]),
                        'prot': pr, 'pol': pol, 'nao': nao, 'warn': rng.random() < 0.5}
+    # 8b. the same after a history of calls with other option values (process-wide cache keyed by all four options)
+    for _ in range(400 if quick else 6000):
+        def one():
+            return [rng.choice(PROTS), rng.choice(POLS), rng.random() < 0.3, rng.random() < 0.3,
+                    rng.choice(['\u00e9 & \u03b1\u4e7e', 'a\x01b%', '\u4e7e', rand_string(rng, rng.randint(0, 6))])]
+        h = [one() for _ in range(rng.randint(1, 3))]
+        last = one()
+        if rng.random() < 0.6:
+            # differ from an earlier call in exactly one option
+            last = list(rng.choice(h)); i = rng.randrange(4)
+            last[i] = [rng.choice(PROTS), rng.choice(POLS), not last[2], not last[3]][i]
+        yield {'k': 'cached', 'hist': h, 'prot': last[0], 'pol': last[1], 'nao': last[2], 'warn': last[3], 's': last[4]}
 
 # ------------------------------------------------------------------ shrinking
 
